@@ -179,7 +179,9 @@ class SLCDriver(CIPDriver):
         request.add(b"".join(message_request))
         response = self.send(request)
         self.__log.debug(f"SLC read_tag({tag})")
-        
+
+        if not response:
+            return Tag(_tag["tag"], None, _tag["file_type"], response.error)
 
         status = request_status(response.raw)
 
@@ -242,6 +244,9 @@ class SLCDriver(CIPDriver):
         request = SendUnitDataRequestPacket(self._sequence)
         request.add(b"".join(message_request))
         response = self.send(request)
+
+        if not response:
+            return Tag(_tag["tag"], None, _tag["file_type"], response.error)
 
         status = request_status(response.raw)
         if status is not None:
